@@ -33,7 +33,8 @@ class Unit:
                  result=None, invariants=None, variants=None, native=None, bounds=(), gen=None, inline=(),
                  abstract=None, module_consts=None, safety=('index', 'div'), trusted=False, short=None,
                  doc='', while_bound=6, fresh_attr=None, canary=None, timeout_ms=8000, defaults=None,
-                 exec_cls=None, self_class=None, cases=None, store='ite', sum_split=False):
+                 exec_cls=None, self_class=None, cases=None, store='ite', sum_split=False, native_obj=None,
+                 native_call=None):
         self.props = [props] if isinstance(props, str) else list(props)
         self.qualname = qualname
         self.short = short or qualname.split(':')[1]
@@ -61,6 +62,12 @@ class Unit:
         self.cases = list(cases or [{}])
         self.store = store
         self.sum_split = sum_split
+        # history replays: native_obj(c, p) builds the real object once, native_call(c, obj, p) applies the inputs p
+        # through the public API and calls the function; a second call on the SAME object must satisfy the contract
+        # for the second inputs (stale caches, leftovers of earlier calls)
+        self.native_obj, self.native_call = native_obj, native_call
+        if native is None and native_obj is not None:
+            self.native = lambda c, p: native_call(c, native_obj(c, p), p)
         self._view0 = None
         self._fndef = None
         if qualname in REGISTRY:
@@ -219,6 +226,9 @@ def build_obligations(unit, c):
         npath += 1
         v1 = View(c, env, s.heap)
         if k == 'return':
+            ys = [y for tag, y in s.trace if tag == 'yield']
+            if ys and p is None:
+                p = ys              # a generator: its result is the list of yielded values
             for exc, cond in spec.items():
                 ex.oblige('raises.%s.not' % exc, s, c.Not(cond), None)
             if unit.post:
@@ -435,9 +445,10 @@ def default_native(unit):
     return run
 
 
-def native_check(unit, values):
+def native_check(unit, values, obj=None, keep=None):
     """run the REAL function on concrete inputs; evaluate the same contract text concretely.
-    -> dict(status='ok'|'pre-false'|'violation'|'error', failed=[...], observed=...)"""
+    -> dict(status='ok'|'pre-false'|'violation'|'error', failed=[...], observed=...)
+    obj: an object left over from an earlier call (history replay); keep: dict receiving the object used."""
     import numpy as np
     c = Ctx('conc', values=values)
     try:
@@ -463,7 +474,14 @@ def native_check(unit, values):
     after = raw
     try:
         with np.errstate(all='ignore'):
-            ret, after = native(c, raw)
+            if unit.native_obj is not None:
+                if obj is None:
+                    obj = unit.native_obj(c, raw)
+                if keep is not None:
+                    keep['obj'] = obj
+                ret, after = unit.native_call(c, obj, raw)
+            else:
+                ret, after = native(c, raw)
     except Exception as e:          # the real function raised
         exc = e
     must = [k for k, g in spec.items() if g]
@@ -558,22 +576,31 @@ def bmc_falsify(unit, max_models=4, timeout_ms=8000):
 
 
 def random_falsify(unit, seed, n):
-    """run-time contract search on the real function (DESIGN 3 step 3)"""
+    """run-time contract search on the real function (DESIGN 3 step 3); for units with a history harness every
+    other case is a second call on the object left by the previous case"""
     if unit.gen is None:
         return None, 0
     rng = random.Random(seed)
     tried = 0
+    prev = None
     for i in range(n):
         try:
             vals = unit.gen(rng)
         except Exception:
             continue
-        nat = native_check(unit, vals)
+        keep = {}
+        use_prev = unit.native_obj is not None and prev is not None and i % 2 == 1
+        nat = native_check(unit, vals, obj=prev[1] if use_prev else None, keep=keep)
         if nat['status'] == 'pre-false':
             continue
         tried += 1
         if nat['status'] == 'violation':
-            return {'inputs': vals, 'native': nat}, tried
+            out = {'inputs': vals, 'native': nat}
+            if use_prev:
+                out['history'] = [prev[0], vals]
+                nat['observed'] = 'second call on the same object (first inputs in history[0]): ' + str(nat.get('observed'))
+            return out, tried
+        prev = (vals, keep.get('obj'))
     return None, tried
 
 
